@@ -90,6 +90,21 @@ def oracle(toks, line):
         want = [("in0", 0x8000, nbytes)] if kind == "app" else []
         m = re.match(r"ok in0:32768 copied=1 (\S+)$", line)
         return bool(m) and runs(m.group(1)) == want
+    if op == "grantf":
+        # the allocator inside the sandbox returns anything: the copy proceeds only into a buffer wholly inside the sandbox
+        kind, off = parse_addr(toks[2]); c = int(toks[3]); sz = APPSZ[toks[1]]; v = int(toks[4]) % (1 << 32)
+        if c == 0 or c > 0xFFFFFFFF:
+            return line == "abort"
+        nbytes = c * sz
+        if v == 0:
+            return line in ("ok null copied=0 -", "abort")
+        if not (v < BLK and v + nbytes <= BLK):
+            return line == "abort"
+        if kind == "null" or not inside(kind, off, nbytes):
+            return line == "abort"
+        want = [("in0", v, nbytes)] if kind == "app" else []
+        m = re.match(rf"ok in0:{v} copied=1 (\S+)$", line)
+        return bool(m) and runs(m.group(1)) == want
     return None
 
 
@@ -150,6 +165,13 @@ def gen_ops(chk, thorough):
         for s in ["null"] + [f"app:{o}" for o in app_starts] + ["in0:64", f"in0:{BLK - 16}", "in1:64"]:
             for c in (0, 1, 2, 5, 8, 16, 17, 100, (BLK - 0x8000) // sz, (BLK - 0x8000) // sz + 1, BLK, 0xFFFFFFFF, 0x100000000, 1 << 40):
                 ops.append(f"grant {el} {s} {c}")
+    for el in ("char", "short", "double"):
+        sz = APPSZ[el]
+        for s in ["app:64", "in0:64", "null"]:
+            for c in (1, 2, 16, 100, BLK // sz):
+                for v in (0, 16, 0x8000, BLK - c * sz, BLK - c * sz + 1, BLK - 1, BLK, BLK + 64, 0x10040, 2 * BLK - 8, 3 * BLK, (1 << 32) - 8):
+                    if v >= 0:
+                        ops.append(f"grantf {el} {s} {c} {v}")
     return ops
 
 
